@@ -114,11 +114,25 @@ fn scaled(kind: &str, n: usize) -> Vec<u8> {
         // n nested groups, each holding one resolvable sibling before the next group, a dangling reference
         // innermost: every level retries its failing child once more after its sibling resolved
         "nested-fail" => { for i in 0..n { s.push_str(&format!("<g><rect id=\"r{i}\" wh=\"1\"/>")); } s.push_str("<rect xy=\"#missing|h\" wh=\"1\"/>"); for _ in 0..n { s.push_str("</g>"); } }
+        // the same with the sibling AFTER the nested group (it completes after the group has failed, so the
+        // group is rightly attempted once more - but the attempts inside that attempt change nothing)
+        "nested-fail-after" => { for _ in 0..n { s.push_str("<g>"); } s.push_str("<rect xy=\"#missing|h\" wh=\"1\"/>"); for i in 0..n { s.push_str(&format!("</g><rect id=\"r{i}\" wh=\"1\"/>")); } }
+        // ... and a satisfiable one: the reference is resolved by an element after the outermost group
+        "nested-late" => { for _ in 0..n { s.push_str("<g>"); } s.push_str("<rect xy=\"#z|h\" wh=\"1\"/>"); for i in 0..n { s.push_str(&format!("</g><rect id=\"r{i}\" wh=\"1\"/>")); } s.push_str("<rect id=\"z\" wh=\"2\"/>"); }
         "use-chain" => { s.push_str("<rect id=\"u0\" wh=\"2\"/>"); for i in 1..n { s.push_str(&format!("<use id=\"u{i}\" href=\"#u{}\" x=\"1\"/>", i - 1)); } s.push_str(&format!("<rect xy=\"#u{}|h\" wh=\"1\"/>", n - 1)); }
         "reuse-self" => { s.push_str("<specs><g id=\"t\"><rect wh=\"1\"/><reuse href=\"#t\"/></g></specs><reuse href=\"#t\"/>"); }
         // a container that fails on every attempt while registering a different id each time: the retry
         // loop sees "progress" in every pass and must still give up (idle passes are bounded)
         "idle-var-ids" => { s.push_str("<var n=\"0\"/>"); for _ in 0..n { s.push_str("<g>"); } s.push_str("<if test=\"1\"><var n=\"{{$n + 1}}\"/><rect id=\"r$n\" wh=\"1\"/><rect xy=\"#missing|h\" wh=\"1\"/></if>"); for _ in 0..n { s.push_str("</g>"); } }
+        // the same three behind an element that fails first: then every pass ends with a change after its
+        // first failure (the fresh id), so the pending elements are attempted again and again, and only the
+        // budget for passes that complete nothing ends it
+        "idle-var-ids-behind" => { s.push_str("<var n=\"0\"/><rect xy=\"#nowhere|h\" wh=\"1\"/>"); for _ in 0..n { s.push_str("<g>"); } s.push_str("<if test=\"1\"><var n=\"{{$n + 1}}\"/><rect id=\"r$n\" wh=\"1\"/><rect xy=\"#missing|h\" wh=\"1\"/></if>"); for _ in 0..n { s.push_str("</g>"); } }
+        "idle-random-ids-behind" => { s.push_str("<rect xy=\"#nowhere|h\" wh=\"1\"/>"); for _ in 0..n { s.push_str("<g>"); } s.push_str("<rect id=\"r{{randint(0, 1000000000)}}\" wh=\"1\"/><rect xy=\"#missing|h\" wh=\"1\"/>"); for _ in 0..n { s.push_str("</g>"); } }
+        // ... and with the failing element first INSIDE the container as well (the inner pass then goes on
+        // after its first failure, completes the fresh registration and is followed by a second inner pass)
+        "idle-var-ids-first" => { s.push_str("<var n=\"0\"/><rect xy=\"#nowhere|h\" wh=\"1\"/>"); for _ in 0..n { s.push_str("<g>"); } s.push_str("<if test=\"1\"><rect xy=\"#missing|h\" wh=\"1\"/><var n=\"{{$n + 1}}\"/><rect id=\"r$n\" wh=\"1\"/></if>"); for _ in 0..n { s.push_str("</g>"); } }
+        "idle-random-ids-first" => { s.push_str("<rect xy=\"#nowhere|h\" wh=\"1\"/>"); for _ in 0..n { s.push_str("<g>"); } s.push_str("<rect xy=\"#missing|h\" wh=\"1\"/><rect id=\"r{{randint(0, 1000000000)}}\" wh=\"1\"/>"); for _ in 0..n { s.push_str("</g>"); } }
         "idle-random-ids" => { for _ in 0..n { s.push_str("<g>"); } s.push_str("<rect id=\"r{{randint(0, 1000000000)}}\" wh=\"1\"/><rect xy=\"#missing|h\" wh=\"1\"/>"); for _ in 0..n { s.push_str("</g>"); } }
         "idle-loop-ids" => { s.push_str(&format!("<loop count=\"{n}\" loop-var=\"i\"><g><rect id=\"q{{{{randint(0, 1000000000)}}}}\" wh=\"1\"/><rect xy=\"#nowhere$i|h\" wh=\"1\"/></g></loop>")); }
         "text-lines" => { s.push_str("<rect wh=\"20\" text=\""); for _ in 0..n { s.push_str("line\\n"); } s.push_str("\"/>"); }
@@ -414,8 +428,8 @@ pub fn run(rep: &mut Report, tier: &str, seed: u64) -> Result<(), String> {
     let mut tags = vec![];
     let sizes: &[(&str, &[usize])] = &[
         ("siblings", &[100, 1000, 4000]), ("nesting", &[50, 99, 100, 101, 1000, 20000]), ("chain-forward", &[20, 80, 200]), ("chain-prev", &[100, 1000]),
-        ("loop", &[10, 999, 1000, 1001]), ("path", &[100, 10000, 100000]), ("points", &[100, 10000]), ("expr-sum", &[10, 1000, 20000]), ("expr-parens", &[10, 100, 101, 3000, 20000, 100000]), ("expr-minus", &[10, 100, 101, 3000, 20000, 100000]), ("expr-calls", &[10, 101, 3000, 20000]), ("scope-chain", &[10, 100, 102, 2000]), ("nested-fail", &[2, 6, 10]),
-        ("var-chain", &[10, 300]), ("scope-lookup", &[5, 12]), ("use-chain", &[10, 300]), ("reuse-self", &[1]), ("idle-var-ids", &[0, 1, 3]), ("idle-random-ids", &[1, 2, 4]), ("idle-loop-ids", &[1, 3]), ("text-lines", &[10, 2000]), ("classes", &[10, 2000]),
+        ("loop", &[10, 999, 1000, 1001]), ("path", &[100, 10000, 100000]), ("points", &[100, 10000]), ("expr-sum", &[10, 1000, 20000]), ("expr-parens", &[10, 100, 101, 3000, 20000, 100000]), ("expr-minus", &[10, 100, 101, 3000, 20000, 100000]), ("expr-calls", &[10, 101, 3000, 20000]), ("scope-chain", &[10, 100, 102, 2000]), ("nested-fail", &[2, 6, 10, 24, 90]), ("nested-fail-after", &[2, 6, 10, 24, 90]), ("nested-late", &[2, 6, 10, 24, 90]),
+        ("var-chain", &[10, 300]), ("scope-lookup", &[5, 12]), ("use-chain", &[10, 300]), ("reuse-self", &[1]), ("idle-var-ids", &[0, 1, 3]), ("idle-var-ids-behind", &[0, 1, 3]), ("idle-random-ids-behind", &[1, 2, 4]), ("idle-var-ids-first", &[0, 1, 3]), ("idle-random-ids-first", &[1, 2, 4]), ("idle-random-ids", &[1, 2, 4]), ("idle-loop-ids", &[1, 3]), ("text-lines", &[10, 2000]), ("classes", &[10, 2000]),
     ];
     for (k, ns) in sizes {
         for n in ns.iter() {
